@@ -148,7 +148,7 @@ pub fn register_all(out: &mut Out, tx: &Transaction, prevout: &TxOut, ss: &Scrip
     let spk = &prevout.script_pubkey;
     let items = ss_items(ss).unwrap_or_default();
     // a 65-byte element ending in 0x00 is also tried as its 64-byte prefix (a statement about
-    // the 64-byte signature; the model of rust-bitcoin's parser looks it up)
+    // the 64-byte signature only; the 65-byte form itself is invalid and never registered)
     let prefixes: Vec<Vec<u8>> = items.iter().chain(wit.iter()).filter(|e| e.len() == 65 && e[64] == 0).map(|e| e[..64].to_vec()).collect();
     let mut elems: Vec<&Vec<u8>> = items.iter().chain(wit.iter()).chain(prefixes.iter()).collect();
     elems.sort(); elems.dedup();
@@ -346,27 +346,23 @@ fn judge(out: &mut Out, case: &Case, tx: &Transaction, prevout: &TxOut, ss: &Scr
     let head = format!("{} {} {} {} {} {}", tx.version.0, tx.lock_time.to_consensus_u32(), tx.input[0].sequence.to_consensus_u32(),
         hex(prevout.script_pubkey.as_bytes()), hex(ss.as_bytes()), desc::wit_wire(wit));
     let info = format!("{} {}", case.info, tag);
-    // input class (computed from the INPUT only): the four input shapes on which the unchanged
-    // interpreter is known to be more permissive than Script are keyed separately
+    // input class (computed from the INPUT only).  The one input shape on which the interpreter
+    // is still known to be more permissive than Script (older() in a version-1 transaction: the
+    // interpreter never sees the version) is keyed separately; the three shapes fixed in /repo
+    // (boolean script element, 65-byte Schnorr signature ending in 0x00, after() on a final input)
+    // are ordinary cases now and only counted for the coverage statistics.
     let spk = &prevout.script_pubkey;
     let script_elem: Option<Vec<u8>> = if spk.is_p2wsh() { wit.last().cloned() }
         else if spk.is_p2tr() && wit.len() >= 2 { Some(wit[wit.len() - 2].clone()) }
         else if spk.is_p2sh() {
             match last_push(ss) { Some(r) if r.len() == 34 && r[0] == 0 && r[1] == 32 => wit.last().cloned(), other => other }
         } else { None };
-    let class = if matches!(&script_elem, Some(e) if e.is_empty() || e[..] == [1]) { "bool-script-element" }
-        else if spk.is_p2tr() && wit.iter().any(|e| e.len() == 65 && e[64] == 0) { "schnorr65-explicit-default" }
-        else if tx.input[0].sequence.to_consensus_u32() == 0xffff_ffff && case.has_after { "cltv-final-sequence" }
-        else if tx.version.0 < 2 && case.has_older { "csv-tx-version-1" }
-        else { "plain" };
+    if matches!(&script_elem, Some(e) if e.is_empty() || e[..] == [1]) { out.count("c13 shape: boolean script element"); }
+    if spk.is_p2tr() && wit.iter().any(|e| e.len() == 65 && e[64] == 0) { out.count("c13 shape: 65-byte schnorr sig ending in 00"); }
+    if tx.input[0].sequence.to_consensus_u32() == 0xffff_ffff && case.has_after { out.count("c13 shape: after() on a final input"); }
+    let class = if tx.version.0 < 2 && case.has_older { "csv-tx-version-1" } else { "plain" };
+    if class != "plain" && run.verdict == "accept" { out.count("c13 accepted in class csv-tx-version-1"); }
     let head = format!("{} {}", class, head);
-    // the four known-finding input classes get a fixed budget of ACCEPTED cases per run, so that
-    // their (suppressed) failures can never crowd out an unlisted one
-    if class != "plain" && run.verdict == "accept" {
-        let key = format!("c13 accepted in class {}", class);
-        if out.hist.get(&key).cloned().unwrap_or(0) >= 120 { return true; }
-        out.count(&key);
-    }
     if run.verdict == "PANIC" {
         out.line(&format!("J nopanic interpreter {} | {} PANIC", head, info), "ok");
         return false;
@@ -462,7 +458,7 @@ fn do_case(out: &mut Out, rng: &mut Rng, case: &Case, leaves: &[Node], assets: &
         variants.insert((1, lt, c));                      // version 1: BIP68 not enforced, CSV fails
     }
     variants.remove(&(2, lt, sq));
-    if mall || !special { variants.retain(|(v, _, s)| *v == 2 && *s != 0xffff_ffff); }
+    if mall || !special { variants.retain(|(v, _, _)| *v == 2); }
     for (ver, l, s) in variants {
         let sat2 = tx_sat(d, assets, make_tx(ver, l, s));
         if let Some((w2, s2)) = satisfy(d, &sat2, mall) {
@@ -533,7 +529,7 @@ fn do_case(out: &mut Out, rng: &mut Rng, case: &Case, leaves: &[Node], assets: &
         if looks_like_sig(&all[i], tap) {
             { let mut v = all.clone(); let l = v[i].len(); v[i][l - 1] ^= 0x02; muts.push((format!("sighashflip{}", i), v, n_ss)); }
             { let mut v = all.clone(); v[i][10] ^= 0x01; muts.push((format!("bitflip{}", i), v, n_ss)); }
-            if tap && all[i].len() == 64 && special && !muts.iter().any(|(n, _, _)| n.starts_with("append00")) {
+            if tap && all[i].len() == 64 {
                 let mut v = all.clone(); v[i].push(0x00); muts.push((format!("append00:{}", i), v, n_ss));
                 let mut v = all.clone(); v[i].push(0x01); muts.push((format!("append01:{}", i), v, n_ss));
             }
